@@ -26,11 +26,12 @@ RULE = ('place cases: memory layout (slot hashes, reference counts, capacities, 
         'lengths, run through the real find_place_for_segments_in_memory.  Small scope = slots over hashes {1,2,3} x '
         'capacities {192,208,384} x refcounts {0,1,2}, new segments over hashes {1,2,3,9} x lengths {192,208,384}, one '
         'total capacity per layout drawn from the values around the two RuntimeError thresholds.  quick: the scopes '
-        '(slots,new) up to (4,3) sampled uniformly (200-400 each); thorough: (0,1..3) (1,1..3) (2,1) (2,2) (3,1) complete '
-        'through Coq, (3,2) and (2,3) swept completely (4.09 M layouts) INSIDE Coq (coq/C19/Sweep.v regenerates every layout '
+        '(slots,new) up to (4,3) sampled uniformly (200-400 each); thorough (trimmed in round 5, the 830 k-case version was killed '
+        'for memory): (0,1..3) (1,1) (1,2) (2,1) complete as ordinary cases, the scopes up to (4,3) sampled (2-10 k each); (1,3) (2,2) '
+        '(3,1) (2,3) swept completely and of (3,2) a window of 960 k consecutive layouts rotating with seed mod 3 (2.62 M layouts per run) '
+        'INSIDE Coq (coq/C19/Sweep.v regenerates every layout '
         'from its index and evaluates check_spec && check_corr on the packed decision of the real function; obligation '
-        'sweep_small_scopes_judged_in_coq; the python oracle runs beside it) and sampled (50-60 k) as ordinary cases, the others '
-        'sampled (60-100 k each).  Plus random layouts with <= 7 slots / <= 5 new segments (duplicates, known '
+        'sweep_small_scopes_judged_in_coq; the python oracle runs beside it).  Plus random layouts with <= 7 slots / <= 5 new segments (duplicates, known '
         'hashes, lengths equal to / 16 below / above free capacities), larger random layouts (<= 30 slots, <= 12 new), a '
         'malformed stream (zero / negative lengths and capacities, negative reference counts, negative total capacity; '
         'compared with the model, the specification applies only when all reference counts are >= 0) and the driver\'s '
@@ -52,7 +53,7 @@ RULE = ('place cases: memory layout (slot hashes, reference counts, capacities, 
         'in a program, a program that is the idle waveform, tight totals, the same content under three names, forced '
         're-upload of identical content, a name removed twice), random histories with 15 % / 40 % idle segments, all '
         'histories of length <= 2 (quick) / <= 3 (thorough) over 21 operations + samples of length 3-6.  sweep: complete '
-        'scopes judged inside Coq from packed decisions (quick (1,1) (1,2) (2,1); thorough + (3,2) (2,3)).  Round 4: '
+        'scopes judged inside Coq from packed decisions (quick (1,1) (1,2) (2,1); thorough see above).  Round 4: '
         'dtype family (c19_families.dtype_family): reference counts {uint32,int64} x capacities {uint32,int64} x new lengths '
         '{uint64,uint32,int64,list,int32,uint16} (+ hashes as list) on 7 layouts at total = refusal threshold - 1 / threshold, '
         'sizes x1 and x65536 (quick 520; thorough 5680 with all totals around both thresholds and 4 scales), through the '
@@ -63,7 +64,11 @@ RULE = ('place cases: memory layout (slot hashes, reference counts, capacities, 
         'refused uploads in between, tight totals); lens_family: 8 histories x 2 dtypes x both drivers in which freed slots '
         'are overwritten by shorter segments and 1/2/3 segments are appended (both branches of the length update in '
         '_amend_segments).  Observation of a history step now includes _segment_lengths and the fake instrument\'s table of '
-        'defined segment lengths (:TRAC:DEF, download_segment_lengths, TRAC:DEL).  Non-trivial = place '
+        'defined segment lengths (:TRAC:DEF, download_segment_lengths, TRAC:DEL).  Round 5: every decision the driver obtains '
+        'inside a history is recorded together with the driver\'s own arrays at call time and judged by the Python oracle of '
+        'the four clauses (not by Coq); short_in_hole_family: 54 histories x both drivers in which a shorter segment sits in '
+        'a larger hole and an append lies exactly on / 1 below / slack below / slack+1 below the refusal threshold; 4 '
+        'tight-total histories free-without-cleanup-then-another-name-appends.  Non-trivial = place '
         'case with a slot, an unknown segment and a decision or Fragmentation refusal; history that reaches >= 3 slots '
         'with a known program; primitive on >= 2 elements.')
 TRUSTED = [
@@ -83,6 +88,8 @@ TRUSTED = [
     'a program segment with the hash of the idle segment (stand-in Seg(0, 192)) stands for "bit-identical to the idle waveform"',
     'numpy integer dtype arithmetic (uint16/32/64, int32/64, python ints, mixed) equals integer arithmetic on the generated '
     'sizes: exercised by the dtype families against the Z model on both refusal thresholds, not proved',
+    'round 5: the recording wrapper around the driver\'s _find_place_for_segments_in_memory (records the driver\'s arrays, calls '
+    '/repo\'s method, records the returned arrays); these in-history decisions are judged by the Python oracle only',
     'fake instrument, length table: `:TRAC:DEF n, len` sets the defined length of slot n, download_segment_lengths(list) sets '
     'slot k+1 := list[k] for all k, TRAC:DEL n drops it; what the real instrument does with a slot defined shorter than its '
     'capacity (addresses) is not modelled',
@@ -197,9 +204,11 @@ def gen_cases(rng, tier, ctx):
     # ---- small scope
     # (slots, new segments, number of layouts drawn from that scope; None = all of them)
     if thorough:
-        plan = [(0, 1, None), (0, 2, None), (0, 3, None), (1, 1, None), (1, 2, None), (1, 3, None), (2, 1, None),
-                (2, 2, None), (2, 3, 50000), (3, 1, None), (3, 2, 60000), (3, 3, 60000), (4, 1, 80000), (4, 2, 80000),
-                (4, 3, 100000)]
+        # round 5 (trimmed: the run was killed for memory / took > 25 min with 830 k ordinary cases): the scopes (1,3) (2,2)
+        # (3,1) (2,3) are swept completely inside Coq by `pregen` (40 k layouts per coqc instead of 400) and only sampled here
+        plan = [(0, 1, None), (0, 2, None), (0, 3, None), (1, 1, None), (1, 2, None), (1, 3, 2000), (2, 1, None),
+                (2, 2, 3000), (2, 3, 4000), (3, 1, 3000), (3, 2, 5000), (3, 3, 8000), (4, 1, 5000), (4, 2, 8000),
+                (4, 3, 10000)]
     else:
         plan = [(0, 1, None), (0, 2, 40), (1, 1, None), (1, 2, 200), (2, 1, 400), (2, 2, 200), (3, 2, 200), (3, 3, 200),
                 (4, 2, 200), (4, 3, 250)]
@@ -208,7 +217,7 @@ def gen_cases(rng, tier, ctx):
             total = rng.choice(_totals(rng, refs, caps, nh, nl, hashes))
             cases.append(_mk(hashes, refs, caps, total, nh, nl))
     # ---- random small / larger
-    n_small, n_large, n_mal, n_drv = (380, 120, 100, 120) if not thorough else (12000, 3000, 2000, 3000)
+    n_small, n_large, n_mal, n_drv = (380, 120, 100, 120) if not thorough else (4000, 1000, 800, 1000)
     hp = [1, 2, 3, 4, 5, -3]
     cp = [192, 208, 224, 256, 384, 400]
     lp = [192, 208, 224, 256, 384, 400, 176, 1024]
@@ -241,7 +250,7 @@ def gen_cases(rng, tier, ctx):
         if c['dts']['nh'] != 'list' and c['dts']['nl'] != 'list' and c['dts']['c'] == 'u4':
             cases.append(dict(c, impl='feature'))
     # random layouts in random dtype combinations (the driver's own combination half of the time), tight totals
-    for k in range(200 if not thorough else 6000):
+    for k in range(200 if not thorough else 2000):
         h, r, c, t, nh, nl = _rand_place(rng, 8, 5, hp, cp, lp[:6], [0, 0, 0, 1, 1, 2, 3])
         if rng.random() < 0.2:
             t = max(rng.choice([0, 100, sum(c) - 1, sum(c) - 192, sum(x for x, y in zip(c, r) if y > 0) - 16]), 0)
@@ -251,7 +260,7 @@ def gen_cases(rng, tier, ctx):
         cases.append(cs)
     # ---- the second copy of the placement (feature_awg/tabor.py::TaborChannelTuple._find_place_for_segments_in_memory):
     # unstable default sort, MemoryError instead of RuntimeError; distinct capacities / lengths in about half of the cases
-    for _ in range(300 if not thorough else 8000):
+    for _ in range(300 if not thorough else 2500):
         if rng.random() < 0.5:
             h, r, c, t, nh, nl = _rand_place(rng, 7, 5, hp, cp, lp[:6], [0, 0, 0, 1, 1, 2, 3])
         else:
@@ -271,7 +280,7 @@ def gen_cases(rng, tier, ctx):
     # ---- layouts of the completely swept scopes (3,2) and (2,3) that the python oracle rejected (thorough tier)
     cases.extend(ctx.get('c19_sweep_rejected', []))
     # ---- histories driven through the real driver bookkeeping (fake instrument)
-    n_hist = 300 if not thorough else 8000
+    n_hist = 300 if not thorough else 1500
     cases.append({'kind': 'hist', 'total': 100000, 'ops': [
         ['upload', 1, [[11, 192], [12, 208]], False], ['upload', 2, [[12, 208], [13, 384]], False], ['remove', 1],
         ['upload', 3, [[14, 192], [12, 208], [15, 400]], False], ['upload', 2, [[16, 192]], True],
@@ -294,7 +303,7 @@ def gen_cases(rng, tier, ctx):
     if thorough:
         cases.extend(_small_histories(3))                                      # 9261
         alpha = _hist_alphabet()
-        for k in range(15000):
+        for k in range(2000):
             ops = [list(rng.choice(alpha)) for _ in range(rng.choice([4, 4, 5, 6]))]
             cases.append(dict({'kind': 'hist', 'total': 100000, 'ops': ops}, **({'driver': 'feature'} if k % 4 == 0 else {})))
     else:
@@ -326,12 +335,20 @@ def pregen(ctx):
     """Sweep of complete small scopes, judged INSIDE Coq (coq/C19/Sweep.v): the real function is run on every layout of
     the scope, only the returned decisions are sent (20 bits per layout); Coq regenerates layout and total capacity from
     the index and evaluates check_spec (four clauses) and check_corr (model = implementation) on each.
-    quick: (1,1) (1,2) (2,1) = 12 960 layouts; thorough: + (3,2) and (2,3) = 4 094 064 layouts.
+    quick: (1,1) (1,2) (2,1) = 12 960 layouts; thorough: + (1,3) (2,2) (3,1) (2,3) complete and a 960 k window of (3,2) that
+    rotates with the seed = 2 620 500 layouts per run.
     Failing layouts are handed to gen_cases and go through the normal case path (VIOLATION + replay)."""
     import time
     t0 = time.time()
     thorough = ctx.get('tier') == 'thorough'
-    scopes = [(1, 1), (1, 2), (2, 1)] + ([(3, 2), (2, 3)] if thorough else [])
+    scopes = [(1, 1), (1, 2), (2, 1)]
+    if thorough:
+        # complete: (1,3) (2,2) (3,1) (2,3) = 1.65 M layouts; of (3,2) (2.83 M layouts) a window of 960 k consecutive layouts
+        # whose position rotates with the seed (seeds 0, 1, 2 together cover the scope)
+        seed = ctx.get('seed', 0) or 0
+        size32 = _scope_size(3, 2)
+        lo = (seed % 3) * 960000
+        scopes += [(1, 3), (2, 2), (3, 1), (2, 3), (3, 2, lo, min(lo + 960000, size32))]
     # Sweep.vo is a build target of the check (step 2); here it is only rebuilt when it is older than its cone, so that a
     # run does not queue twice for the global build lock
     ok = _sweep_vo_fresh() or vlib.coq_make(['C19/Sweep.vo'])[0]
@@ -345,9 +362,10 @@ def pregen(ctx):
         return [{'name': 'sweep_small_scopes_judged_in_coq', 'ok': False, 'detail': 'sweep crashed: %s' % (e,)}]
     ctx['c19_sweep_rejected'] = (failing + [c for c in py_rejected if c not in failing])[:50]
     return [{'name': 'sweep_small_scopes_judged_in_coq', 'ok': True,
-             'detail': 'scopes %s complete: %d layouts in %d coqc shards, Coq (check_spec && check_corr per layout) rejects '
+             'detail': 'scopes %s: %d layouts in %d coqc shards, Coq (check_spec && check_corr per layout) rejects '
                        '%d, the python oracle of the four clauses rejects %d, %.0f s'
-                       % (' '.join('(%d,%d)' % sc for sc in scopes), n, shards, len(failing), len(py_rejected),
+                       % (' '.join('(%d,%d) complete' % sc if len(sc) == 2 else '(%d,%d) layouts %d..%d' % sc for sc in scopes),
+                          n, shards, len(failing), len(py_rejected),
                           time.time() - t0)}]
 
 
@@ -425,9 +443,15 @@ def _sweep_job(arg):
                  'Open Scope Z_scope.\nGoal True. idtac "@@BEGIN". exact I. Qed.\n'
                  'Eval vm_compute in (sweep_chunk %d %d %d %d %d [%s]).\nGoal True. idtac "@@END". exact I. Qed.\n'
                  % (nslots, nnew, seed, lo, hi - lo, '; '.join(words)))
-    pr = subprocess.run(['timeout', str(vlib.COQC_TIMEOUT), 'coqc', '-R', vlib.COQ, 'QV', '-w', '-all', path],
-                        cwd=workdir, stdout=subprocess.PIPE, stderr=subprocess.STDOUT, text=True)
-    m = re.search(r'=\s*\(\[([^\]]*)\],\s*(\d+),\s*(\d+)\)', pr.stdout.split('@@BEGIN')[-1]) if pr.returncode == 0 else None
+    import time
+    for attempt in range(3):
+        pr = subprocess.run(['timeout', str(vlib.COQC_TIMEOUT), 'coqc', '-R', vlib.COQ, 'QV', '-w', '-all', path],
+                            cwd=workdir, stdout=subprocess.PIPE, stderr=subprocess.STDOUT, text=True)
+        m = re.search(r'=\s*\(\[([^\]]*)\],\s*(\d+),\s*(\d+)\)', pr.stdout.split('@@BEGIN')[-1]) if pr.returncode == 0 else None
+        if m or (pr.returncode >= 0 and pr.returncode != 137):
+            break
+        # coqc was killed from outside (round 5: the machine's OOM killer while 20 checks ran at once): same shard again
+        time.sleep(20 * (attempt + 1))
     if not m:
         raise RuntimeError('coqc failed on sweep shard %s: %s' % (path, pr.stdout[-400:]))
     bad = [int(x) for x in m.group(1).replace(' ', '').replace('\n', '').split(';') if x.strip()]
@@ -445,11 +469,14 @@ def sweep_scopes(scopes, seed, workdir, limit=None, procs=None):
     import multiprocessing
     os.makedirs(workdir, exist_ok=True)
     jobs = []
-    for nslots, nnew in scopes:
-        size = _scope_size(nslots, nnew) if limit is None else min(limit, _scope_size(nslots, nnew))
+    for sc in scopes:
+        nslots, nnew = sc[0], sc[1]
+        first, size = (sc[2], sc[3]) if len(sc) == 4 else (0, _scope_size(nslots, nnew))
+        if limit is not None:
+            size = min(size, first + limit)
         step = 40000
-        jobs += [(nslots, nnew, lo, min(lo + step, size), seed, workdir) for lo in range(0, size, step)]
-    procs = procs or max(2, min(8, (os.cpu_count() or 4) // 2, len(jobs)))
+        jobs += [(nslots, nnew, lo, min(lo + step, size), seed, workdir) for lo in range(first, size, step)]
+    procs = procs or max(2, min(6, (os.cpu_count() or 4) // 2, len(jobs)))
     n, failing, py_rejected = 0, [], []
     with multiprocessing.get_context('fork').Pool(procs) as pool:
         for k, bad, nbad, rej in pool.imap_unordered(_sweep_job, jobs):
@@ -1106,7 +1133,11 @@ MANIFEST = {
                   'independent specification evaluated on numpy\'s output.  The models are tied to the code by exact correspondence '
                   'checks against the real function, against the real bookkeeping of both Tabor drivers on a fake '
                   'instrument, and per numpy primitive against numpy.',
-    'level_note': 'The history theorems are about a hand-written model of the driver bookkeeping; both driver files need '
+    'level_note': 'Clause map in notes/C19.md.  Every clause is PROVED about hand-written Gallina models and TESTED on the implementation; none is proved of the Python code itself.  '
+                  'The capacity theorem counts slot capacities only (not the 16 points of spacing per segment); the '
+                  'clause-3 check of the decisions taken inside histories is a theorem about the model (C19_history_decisions) '
+                  'and a Python-oracle test on the real drivers.  '
+                  'The history theorems are about a hand-written model of the driver bookkeeping; both driver files need '
                   'tabor_control, so the model is tied to them only by running the real classes against a fake instrument '
                   'with sampling replaced by stand-ins.  The copy of the placement inside feature_awg/tabor.py sorts '
                   'unstably: compared exactly only on tie-free inputs, four clauses always (that all tie orders are safe is '
